@@ -134,4 +134,18 @@ PLANS = {
         "components": {"real": ["nodes.EventTimeBuffer", "every execution node of C15", "StreamJoin/OuterJoin", "max_diff_watermark", "tumble", "CustomTriggerGroupBy", "planner"], "stub": ["sources (scripted, gated)", "sink"]},
         "assumptions": ["a row's event time equals its time column where it has one"],
     },
+    "C23": {
+        "level": "exploration",
+        "technique": "deterministic simulation: real file datasources read through a simulated disk (tape-chosen short reads, buffer sizes) and, for JSON, a per-run parser pool of 1-16 workers whose hand-offs are gated so the tape decides batch completion order and when EOF is reported; independent decoding as oracle; stdin fed through a pipe in tape-chosen chunks to the real binary",
+        "level_text": ("seeded exploration of generated files (row counts across the 64-line batch and 100-row preview boundaries, unicode, escapes, nested JSON, quoted CSV/TSV, custom and multi-byte line separators) x "
+                       "worker counts x gated worker/reader schedules x read-chunk patterns x buffer sizes; every source must return exactly one record per row, in file order, with the row's values"),
+        "level_note": ("trusted: independent decoders (encoding/json, generator-side row lists); all rows of a file conform to one schema (schema inference is C24). Not covered: parquet (opens the file itself through a third-party ReadAt reader: no seam, no scheduling dimension); "
+                       "CRLF handling of the default newline separator (bufio.ScanLines drops a trailing \\r by design)"),
+        "parts": [{"check": "c23", "quick": 12000, "thorough": 600000}, {"check": "c23stdin", "kind": "proc", "script": "c23stdin.py", "quick": 320, "thorough": 20000}],
+        "rule": ("each run draws a source kind, a file, knobs (workers, buffer size, chunk pattern) and for JSON the release order of every gated hand-off; non-trivial = >=2 rows; "
+                 "distinct = distinct (kind+size+knobs, content/schedule) pairs"),
+        "components": {"real": ["datasources/json (Creator, DatasourceExecuting, worker pool via build overlay)", "datasources/csv", "datasources/lines", "execution/files.OpenLocalFile", "stdin preview/replay in the real octosql binary"],
+                       "stub": ["disk (reads served by the simulated disk over the real file)", "sink"]},
+        "assumptions": ["the build overlay only turns the package-init pool constructor into a named function (tools/mkoverlay)"],
+    },
 }
